@@ -355,12 +355,21 @@ def parent_main(pid, tier, seed, workers=16, write_evidence=True):
         unconfirmed = []
         seen_keys = set()
         rdir = os.path.join(VERIF, 'replays', pid)
+        # one candidate per distinct key first (a state-dependent defect yields many violations a fresh interpreter cannot
+        # reproduce next to the ones from explicit history cases, which it can)
+        firsts, rest, seen_k = [], [], set()
         for v in unknown:
+            kd0 = digest(v['key'])
+            (rest if kd0 in seen_k else firsts).append(v)
+            seen_k.add(kd0)
+        attempts = 0
+        for v in firsts + rest:
             kd = digest(v['key'])
             if kd in seen_keys and len(reported) >= 3:
                 continue
-            if len(reported) >= MAX_REPORT:
+            if len(reported) >= MAX_REPORT or attempts >= 40:
                 break
+            attempts += 1
             seen_keys.add(kd)
             os.makedirs(rdir, exist_ok=True)
             path = os.path.join(rdir, digest(v['case']) + '.json')
@@ -382,8 +391,6 @@ def parent_main(pid, tier, seed, workers=16, write_evidence=True):
                 # both as reproducible violations (history cases) and as ones that a fresh process cannot reproduce
                 unconfirmed.append((v, path, cp.stdout[-800:] + cp.stderr[-800:]))
                 seen_keys.discard(kd)
-                if len(unconfirmed) >= 6:
-                    break
                 continue
             reported.append((v, path))
         if unconfirmed and not reported:
@@ -393,7 +400,7 @@ def parent_main(pid, tier, seed, workers=16, write_evidence=True):
             print(v['msg'][:1500])
             print(out)
             return 2
-        for v, path, out in unconfirmed:
+        for v, path, out in unconfirmed[:5]:
             print('UNCONFIRMED (not reproduced in a fresh interpreter, not reported): %s' % v['msg'][:300])
 
         wall = time.time() - t0
